@@ -242,6 +242,30 @@ func (r *lockRig) candidates(pre *ref.State) []lockCand {
 	return cs
 }
 
+// consumedAsInvalid: the emulator treated the bytes at PC as an encoding it does not support - it read between one and
+// four instruction bytes, advanced PC by as many (and R), and did nothing else. That is what C12 asks of unsupported
+// opcodes; for an *undocumented* encoding of the model it means "this tree does not support it" (no verdict), whether
+// or not the tree says so in its log. log == nil: no access log available (bundled memory types), state only.
+func consumedAsInvalid(pre, got *ref.State, log []bus.Access, haveLog bool) bool {
+	n := int(got.PC - pre.PC)
+	if n < 1 || n > 4 {
+		return false
+	}
+	if haveLog {
+		if len(log) != n {
+			return false
+		}
+		for i, x := range log {
+			if x.K != bus.Read || x.Addr != pre.PC+uint16(i) {
+				return false
+			}
+		}
+	}
+	a, b := *pre, *got
+	a.PC, b.PC, a.R, b.R = 0, 0, 0, 0
+	return a == b
+}
+
 // resyncNow (inside a journalled model Step that has no verdict): forget what the model did, take over the emulator's
 // state and memory. Not possible on the bundled DumbMemory (no copy of it on the model's side) or after a panic.
 func (r *lockRig) resyncNow(o *lockStep, pan any, dur *ref.Request, fired bool) bool {
@@ -333,6 +357,9 @@ func (r *lockRig) step() lockStep {
 				o.discs = []eng.Disc{{Kind: eng.KPanic, Msg: fmt.Sprint("Step panicked: ", pan)}}
 				return o
 			}
+			if !o.logged && !in.Documented && !consumed && consumedAsInvalid(&o.pre, &got, r.ib.Log, !r.useDumb) {
+				o.logged = true // unsupported by this tree, silently
+			}
 			if o.logged {
 				if in.Documented && !consumed {
 					r.mb.End()
@@ -351,6 +378,18 @@ func (r *lockRig) step() lockStep {
 		if !in.Implemented {
 			r.mb.Rollback()
 			continue
+		}
+		if ci > 0 && c.known != "" && !in.Documented {
+			// the known finding let an *undocumented* encoding run (the overlay switched off at the wrap, the program's
+			// own bytes execute): whether this tree supports that encoding cannot be told from a log line on an
+			// acceptance Step, so there is no verdict here
+			if r.resyncNow(&o, pan, dur, fired) {
+				return o
+			}
+			r.mb.Rollback()
+			r.mb.End()
+			o.skipped = true
+			return o
 		}
 		if consumed {
 			if !in.IsHalt {
